@@ -4,6 +4,7 @@ import (
 	"fmt"
 	"os"
 	"path/filepath"
+	"regexp"
 	"strings"
 	"unicode"
 )
@@ -343,4 +344,32 @@ func quoteMeta(s string) string {
 		sb.WriteRune(r)
 	}
 	return sb.String()
+}
+
+// Matches enumerates every string over the alphabet up to maxLen that the lexer rule matches
+// completely (small-scope view of a lexer class; used to justify text-conversion sites).
+func (g *Grammar) Matches(token string, alphabet string, maxLen int) ([]string, error) {
+	re, ok := g.Lexer[token]
+	if !ok {
+		return nil, fmt.Errorf("no lexer rule %s in Numscript.g4", token)
+	}
+	rx, err := regexp.Compile("^(?:" + re + ")$")
+	if err != nil {
+		return nil, fmt.Errorf("lexer rule %s: %v", token, err)
+	}
+	var out []string
+	var rec func(prefix string)
+	rec = func(prefix string) {
+		if rx.MatchString(prefix) {
+			out = append(out, prefix)
+		}
+		if len(prefix) >= maxLen {
+			return
+		}
+		for _, ch := range alphabet {
+			rec(prefix + string(ch))
+		}
+	}
+	rec("")
+	return out, nil
 }
